@@ -9,7 +9,7 @@ import numpy as np
 CLASSES = ['Periodogram', 'pcorrelogram', 'pburg', 'pyule', 'pcovar', 'pmodcovar', 'parma', 'pma',
            'pminvar', 'pmusic', 'pev', 'MultiTapering']
 # variants of a class with another method (same class-level clauses): 'Name:variant'
-VARIANTS = ['MultiTapering:adapt', 'MultiTapering:unity']
+VARIANTS = ['MultiTapering:adapt', 'MultiTapering:unity', 'MultiTapering:precomputed']
 
 # model orders etc. used throughout (documented domain, modest)
 PARAMS = {'order': 4, 'lag': 12, 'P': 3, 'Q': 3, 'armalag': 12, 'maQ': 3, 'maM': 10, 'IP': 8, 'NSIG': 2,
@@ -22,7 +22,10 @@ def build(name, x, nfft, sampling=1.0, scale=False, **over):
     p.update(over)
     if ':' in name:
         name, variant = name.split(':')
-        p['mtm'] = variant
+        if name == 'MultiTapering':
+            p['mtm'] = variant
+        elif name == 'Periodogram':
+            p['window'] = variant
     kw = dict(NFFT=nfft, sampling=sampling, scale_by_freq=scale)
     if name == 'Periodogram':
         return sp.Periodogram(x, window=p.get('window', 'hann'), **kw)
@@ -37,8 +40,25 @@ def build(name, x, nfft, sampling=1.0, scale=False, **over):
     if name in ('pmusic', 'pev'):
         return getattr(sp, name)(x, p['IP'], NSIG=p['NSIG'], **kw)
     if name == 'MultiTapering':
+        if p['mtm'] == 'precomputed':
+            # the caller computes the tapers once and hands the same arrays to every estimate
+            key = (len(x), p['NW'], p['k'])
+            if key not in _DPSS:
+                _DPSS[key] = sp.dpss(len(x), p['NW'], p['k'])
+            v, e = _DPSS[key]
+            return sp.MultiTapering(x, e=e, v=v, method='eigen', **kw)
         return sp.MultiTapering(x, NW=p['NW'], k=p['k'], method=p['mtm'], **kw)
     raise KeyError(name)
+
+
+_DPSS = {}
+
+
+def window_variants(idx, n=3):
+    """n window names for the periodogram class, rotating with idx over all names"""
+    from spectrum.window import window_names
+    names = sorted(window_names)
+    return ['Periodogram:' + names[(idx * n + i) % len(names)] for i in range(n)]
 
 
 def outputs(name, obj):
